@@ -18,6 +18,7 @@ def oracle(cfg, trace, residue):
     fails = []
     conn = {}          # (tid, ns) -> sid
     pend = {}          # tid -> frames of a binary packet being sent
+    nev = 0            # event-handler invocations so far (index into the script)
     for op, im, _mo in trace:
         before = dict(conn)
         # learn connection state from the wire
@@ -25,7 +26,7 @@ def oracle(cfg, trace, residue):
             for p in pycodec.decode_stream(frames):
                 if p['type'] == 0:
                     conn[(tid, p['ns'])] = p['data']['sid']
-                elif p['type'] in (1, 4):
+                elif p['type'] == 1:
                     conn.pop((tid, p['ns']), None)
         if op['op'] == 'lost':
             for k in [k for k in conn if k[0] == op['t']]:
@@ -55,6 +56,8 @@ def oracle(cfg, trace, residue):
         p = pk[-1]
         sid = before.get((t, p['ns']))
         evs = [i for i in im['invokes'] if i[0][2] not in ('connect', 'disconnect', 'on_connect', 'on_disconnect')]
+        first_ev = nev
+        nev += len(evs)
         if cfg['asyncHandlers']:
             continue     # judged at settle time by the correspondence only
         if sid is None:
@@ -82,7 +85,21 @@ def oracle(cfg, trace, residue):
         else:
             if len(acks) != 1 or acks[0][0] != t or acks[0][1]['id'] != p['id'] or acks[0][1]['ns'] != p['ns']:
                 fails.append((None, 'expected exactly one ACK id=%r ns=%r to %s, saw %r' % (p['id'], p['ns'], t, acks)))
+            elif evs:
+                ret = cfg['onEvent'][first_ev]['ret'] if first_ev < len(cfg['onEvent']) else None
+                want = [] if ret is None else (list(ret) if isinstance(ret, tuple) else [ret])
+                if not C.same(_norm(acks[0][1]['data']), _norm(want)):
+                    fails.append((None, 'ACK payload %r is not the handler\'s return value %r' % (acks[0][1]['data'], ret)))
     return fails
+
+
+def _norm(v):
+    """JSON transport view of a value: tuples are lists"""
+    if isinstance(v, (list, tuple)):
+        return [_norm(x) for x in v]
+    if isinstance(v, dict):
+        return {k: _norm(x) for k, x in v.items()}
+    return v
 
 
 def _cls_responsible(cfg, ns):
